@@ -471,6 +471,12 @@ pub fn for_each_case(part: &str, tier: Tier, mut f: impl FnMut(u64, Case) -> boo
                     return;
                 }
             }
+            // … and the window programs of C04 (partitions, sorts by plain and computed keys, frames, placements)
+            for s in crate::c04::program_texts(tier) {
+                if !emit(Case::Src(s)) {
+                    return;
+                }
+            }
         }
         "numbers" => {
             // every numeric position × boundary values (one or two slots per carrier)
